@@ -11,8 +11,10 @@ import (
 	"bytes"
 	"context"
 	"errors"
+	"fmt"
 	"io/fs"
 	"math"
+	"runtime/debug"
 	"strings"
 	"testing"
 	"testing/fstest"
@@ -803,5 +805,148 @@ func TestFinding101_MapBuiltinsAreDeterministic(t *testing.T) {
 		if !strings.Contains(out, "<p>a,b,c,d,e,f,g</p>") || !strings.Contains(out, "a first") {
 			t.Errorf("not in key order: %q", out)
 		}
+	}
+}
+
+type selfPointer *selfPointer
+
+// rows 102-106 — a bound attribute named like a directive (C01.R11), a stray }} (C02.R16), a function whose only
+// result is an error and a float32 argument (C13.R26), self-referential pointers (C11.R17)
+func TestFinding102to106_SeventhBatch(t *testing.T) {
+	var p selfPointer
+	p = &p
+	funcs := vuego.FuncMap{"check": func(s string) error {
+		if s == "bad" {
+			return errors.New("check failed")
+		}
+		return nil
+	}, "show": func(s string) string { return s }}
+	run := func(tpl string, data any) (string, error) {
+		done := make(chan struct{})
+		var out string
+		var err error
+		go func() {
+			defer close(done)
+			var buf bytes.Buffer
+			err = vuego.New(vuego.WithFuncs(funcs)).Fill(data).RenderString(context.Background(), &buf, tpl)
+			out = strings.Join(strings.Fields(buf.String()), "")
+		}()
+		select {
+		case <-done:
+		case <-time.After(5 * time.Second):
+			return "", errors.New("DID NOT RETURN")
+		}
+		return out, err
+	}
+	// the data value of :v-show is never evaluated: both values give the same element
+	a, err1 := run(`<p :v-show="x">a</p>`, map[string]any{"x": "secret == 'TOPSECRET'", "secret": "TOPSECRET"})
+	b, err2 := run(`<p :v-show="x">a</p>`, map[string]any{"x": "word", "secret": "TOPSECRET"})
+	if err1 != nil || err2 != nil || a != b {
+		t.Errorf(":v-show with a data value: %q %v vs %q %v", a, err1, b, err2)
+	}
+	if out, err := run(`<p>{{ x }} }}</p><b title="{{ x }} }}">b</b>`, map[string]any{"x": "V"}); err != nil || out != `<p>V}}</p><btitle="V}}">b</b>` {
+		t.Errorf("stray closer: %q %v", out, err)
+	}
+	if out, err := run(`<p>[{{ check("ok") }}]</p>`, nil); err != nil || out != "<p>[]</p>" {
+		t.Errorf("error-only function, success: %q %v", out, err)
+	}
+	if _, err := run(`<p>{{ check("bad") }}</p>`, nil); err == nil || !strings.Contains(err.Error(), "check") {
+		t.Errorf("error-only function, failure: err=%v, want an error that names check", err)
+	}
+	if out, err := run(`<p>{{ show(f) }}</p>`, map[string]any{"f": float32(0.1)}); err != nil || out != "<p>0.1</p>" {
+		t.Errorf("float32 argument: %q %v", out, err)
+	}
+	if _, err := run(`<p v-for="x in p">{{ x }}</p><i>{{ p.name }}</i>`, map[string]any{"p": p}); err != nil {
+		t.Errorf("self-referential pointer: %v", err)
+	}
+}
+
+// rows 107-111 — a typed nil *SlotScope in the data (C11.R18), GetString of a nil pointer Stringer (C11.R19), root data
+// that is a pointer to a map (C17.R19), a nested struct without exported fields (C17.R20), pointer keys that reach
+// cyclic data (C11.R11)
+type f8Stringer struct{ N int }
+
+func (s f8Stringer) String() string { return "S" }
+
+type f8Root struct {
+	Title   string    `json:"title"`
+	Created time.Time `json:"created"`
+}
+
+type f8Key struct {
+	Name string
+	M    map[string]any
+}
+
+func TestFinding107to111_EighthBatch(t *testing.T) {
+	render := func(v vuego.Template, tpl string, data any) (out string, err error) {
+		defer func() {
+			if r := recover(); r != nil {
+				err = fmt.Errorf("PANIC: %v", r)
+			}
+		}()
+		var buf bytes.Buffer
+		err = v.Fill(data).RenderString(context.Background(), &buf, tpl)
+		return strings.Join(strings.Fields(buf.String()), " "), err
+	}
+	// 107: a typed nil pointer under the reserved key is not a slot scope
+	nilScope := map[string]any{"__slotScope__": (*vuego.SlotScope)(nil)}
+	if out, err := render(vuego.New(), `<div><slot>fb</slot></div>`, nilScope); err != nil || !strings.Contains(out, "fb") {
+		t.Errorf("nil *SlotScope, <slot>: %q %v", out, err)
+	}
+	fsys := fstest.MapFS{"c.vuego": {Data: []byte("<b>c</b>")}}
+	if out, err := render(vuego.NewFS(fsys), `<template include="c.vuego"></template>`, nilScope); err != nil || !strings.Contains(out, "<b>c</b>") {
+		t.Errorf("nil *SlotScope, include: %q %v", out, err)
+	}
+	// 108: GetString of a nil pointer whose type has a value-receiver String method
+	func() {
+		defer func() {
+			if r := recover(); r != nil {
+				t.Errorf("GetString panicked: %v", r)
+			}
+		}()
+		s := vuego.NewStackWithData(map[string]any{"np": (*f8Stringer)(nil), "sp": &f8Stringer{1}}, nil)
+		if got, ok := s.GetString("sp"); !ok || got != "S" {
+			t.Errorf("GetString(sp) = %q %v", got, ok)
+		}
+		s.GetString("np")
+	}()
+	// 109: &map as root data: v-if sees what {{ }} prints
+	m := map[string]any{"flag": true}
+	if out, err := render(vuego.New(), `<p v-if="flag">if</p><p v-else>else</p><i>{{ flag }}</i>`, &m); err != nil || !strings.Contains(out, "<p>if</p>") || !strings.Contains(out, "<i>true</i>") {
+		t.Errorf("pointer to map as root data: %q %v", out, err)
+	}
+	// 110: a time.Time field of a struct root keeps its value
+	tm := time.Date(2024, 3, 5, 0, 0, 0, 0, time.UTC)
+	if out, err := render(vuego.New(), `<p>{{ created | formatTime("2006") }}</p>`, f8Root{Title: "T", Created: tm}); err != nil || !strings.Contains(out, "<p>2024</p>") {
+		t.Errorf("time.Time field of a struct root: %q %v", out, err)
+	}
+	// 111: two pointer keys that reach a map containing itself: the keys are ordered without walking the cycle
+	cyc := map[string]any{}
+	cyc["self"] = cyc
+	mm := map[*f8Key]int{{Name: "a", M: cyc}: 1, {Name: "b", M: cyc}: 2}
+	done := make(chan string, 1)
+	go func() {
+		debug.SetMaxStack(64 << 20)
+		out, err := render(vuego.New(), `<p v-for="x in mm">{{ x }}</p>`, map[string]any{"mm": mm})
+		done <- fmt.Sprint(out, err)
+	}()
+	select {
+	case got := <-done:
+		if !strings.Contains(got, "<p>1</p>") || !strings.Contains(got, "<p>2</p>") {
+			t.Errorf("pointer keys over cyclic data: %s", got)
+		}
+	case <-time.After(20 * time.Second):
+		t.Errorf("pointer keys over cyclic data: did not return")
+	}
+}
+
+// row 112 — C13.R27: an evaluated :style value keeps the quotes it contains
+func TestFinding112_StyleValueKeepsItsQuotes(t *testing.T) {
+	var buf bytes.Buffer
+	err := vuego.New().Fill(map[string]any{"ff": "'Fira Code', monospace"}).RenderString(context.Background(), &buf, `<p :style="{fontFamily: ff, color: 'red'}">t</p>`)
+	got := html.UnescapeString(buf.String())
+	if err != nil || !strings.Contains(got, "font-family:'Fira Code', monospace;") || !strings.Contains(got, "color:red;") {
+		t.Errorf("style value with quotes: %q %v", got, err)
 	}
 }
